@@ -136,8 +136,8 @@ class Run:
         self.last_io = w.io_total - io0
         fired = bool(w.fault_fired) and w.fault_fired[-1][0] == (fault[0] if fault else None) and len(w.fault_fired) > getattr(self, "_fired_seen", 0)
         self._fired_seen = len(w.fault_fired)
-        if fired and fault[1] in ("recv_close", "recv_trunc", "send_partial"):
-            self.tcp_killed = True
+        if fired:
+            self.tcp_killed = True  # every injected fault leaves that TCP connection unusable (reset, broken pipe, peer gone)
         if fired and sum(1 for x in t.fo_log if x[2]) > fo_before:
             self.fo_reply_lost = True  # the target opened a connection during an event whose I/O failed: the client may not know it
         if ev in ("close", "with_ok", "with_raise") or (ev == "open" and False):
@@ -236,7 +236,7 @@ def probe_ok(drv, pol, hist):
     return probs
 
 
-def search(rep, drv, pol, max_depth, max_faults, kinds):
+def search(rep, drv, pol, max_depth, max_faults, kinds, frames_only=False):
     seen = set()
     frontier = deque([()])
     r0 = Run(drv, pol)
@@ -253,7 +253,14 @@ def search(rep, drv, pol, max_depth, max_faults, kinds):
         r.do(ev, fault)
         trans += 1
         k = r.canon(nf)
-        for clause, detail in r.violations[base:]:
+        if frames_only:
+            from .harness import frame_violations
+
+            for clause, detail in frame_violations(r.w, r.t):
+                rep.violation(f"histories/{clause}/{drv}", f"history {fmt(hist + ((ev, fault),))}: {detail}", {"kind": "history", "drv": drv, "pol": pol, "hist": [[e, list(f) if f else None] for e, f in hist + ((ev, fault),)]})
+            rep.add("states", len(r.w.messages))
+        else:
+          for clause, detail in r.violations[base:]:
             rep.violation(f"{clause}/{drv}/{pol}", f"history {fmt(hist + ((ev, fault),))}: {detail}", {"drv": drv, "pol": pol, "hist": [[e, list(f) if f else None] for e, f in hist + ((ev, fault),)]})
         rep.case((drv, pol, hist, ev, fault), outcome=r.outcomes[-1][2], calls=len(hist) + 1)
         io = r.last_io
@@ -263,7 +270,7 @@ def search(rep, drv, pol, max_depth, max_faults, kinds):
         if new:
             seen.add(k)
             states += 1
-            for clause, detail in probe_ok(drv, pol, hist + ((ev, fault),)):
+            for clause, detail in (probe_ok(drv, pol, hist + ((ev, fault),)) if not frames_only else ()):
                 rep.violation(f"{clause}/{drv}/{pol}", f"after history {fmt(hist + ((ev, fault),))}: {detail}", {"drv": drv, "pol": pol, "hist": [[e, list(f) if f else None] for e, f in hist + ((ev, fault),)], "probe": True})
         return new, io
 
